@@ -40,6 +40,10 @@ type Knobs struct {
 	JournalFile bool   `json:"journal_file,omitempty"`
 	DirtyZero   bool   `json:"dirty_zero,omitempty"` // TrieDirtyLimit 0 (path scheme: flush the buffer whenever the disk layer moves)
 	NoAsync     bool   `json:"no_async,omitempty"`   // path scheme: synchronous buffer flush
+	// ValueScale > 1 inflates Batch.ValueSize() of the key-value store (documented as
+	// approximate) so that every user of ethdb.IdealBatchSize (hashdb Commit/Cap, snapshot
+	// flush, tx indexer) splits its writes into several mutation units with tiny states
+	ValueScale int `json:"value_scale,omitempty"`
 }
 
 // critPanic is what the root log handler panics with on log.Crit (which would
@@ -282,6 +286,9 @@ func newWorld(knobs Knobs, tree *refTree, res *simcore.Result, bubble bool) (*wo
 		live: map[logKey]bool{}, universe: tree.universe(), trace: simcore.NewHash(), stateFP: simcore.NewHash(),
 		headNode: -1, finalNode: -2, dupLogBlock: -2, unexecuted: map[int]bool{}, badBlock: -2}
 	w.kv = simdisk.NewSimKV(w.clock)
+	if knobs.ValueScale > 1 {
+		w.kv.ValueSizeScale = knobs.ValueScale
+	}
 	w.rec = simos.NewRecorder(root)
 	w.rec.NextSeq = w.clock.Next
 	simos.ResetLocks()
